@@ -11,14 +11,14 @@ OpT(k) == <<k, k, FALSE>>
 
 \* one representative per parser-equivalence class (DESIGN.md appendix A) ...
 ClassAlphabet ==
-  { T3("Num", "1"), T3("Kw", "true"), T3("Id", "a"), T3("typeof", "typeof"), T3("Unknown", "@") }
+  { T3("Num", <<FALSE, <<1>>, 0>>), T3("Kw", "true"), T3("Id", "a"), T3("typeof", "typeof"), T3("Unknown", "@") }
   \cup { OpT(k) : k \in {"(", ")", "[", "]", ".", "!.", "...", ",", "?", ":", "=",
                          "!", "!!", "-", "*", "<", "==", "&", "^", "|", "&&", "||"} }
   \cup { <<".", ".", TRUE>>, <<"!.", "!.", TRUE>>, <<"(", "(", TRUE>>, <<"Id", "a", TRUE>> }
 
 \* ... and every token kind the scanner can produce
 FullAlphabet ==
-  { T3("Num", "1"), T3("Str", "s"), T3("Id", "a"), T3("typeof", "typeof"), T3("Unknown", "@") }
+  { T3("Num", <<FALSE, <<1>>, 0>>), T3("Str", "s"), T3("Id", "a"), T3("typeof", "typeof"), T3("Unknown", "@") }
   \cup { T3("Kw", w) : w \in {"true", "false", "null", "this", "ctx"} }
   \cup { OpT(k) : k \in {"(", ")", "[", "]", ".", "!.", "...", ",", "?", ":", "=",
                          "!", "!!", "~", "+", "-", "*", "/", "%", "<", ">", "<=", ">=",
